@@ -15,14 +15,25 @@ AllOps == {"AND","OR","EQUALS","LIKE","NOT","RANGE","MUST","MUST_NOT","BOOST","F
 MapOf(run) == CASE run.mode = "all"     -> [o \in AllOps |-> o]
                 [] run.mode = "removed" -> [o \in AllOps \ {run.mop} |-> o]
                 [] run.mode = "over"    -> [o \in AllOps |-> IF o = run.mop THEN "X" \o o ELSE o]
+                [] run.mode = "blank"   -> [o \in AllOps |-> IF o = run.mop THEN "BLANK" ELSE o]
                 [] OTHER                -> [o \in AllOps |-> o]
 \* an argument is the rendered child, wrapped in parentheses at most
 ArgOk(x, bare) == x = bare \/ x = "(" \o bare \o ")"
 CallOk(real, model) == real.op = model.op /\ real.ret = model.ret /\ ArgOk(real.l, model.lb) /\ ArgOk(real.r, model.rb)
 CallsOk(real, model, n) == \A i \in 1..n : CallOk(real[i], model[i])
 \* one render against the fold discipline (REF)
+\* the k-th call returns an error (mop = k as text): Render fails without partial text; what was called until then is the fold
+FailAt(run) == CHOOSE k \in 1..Len(run.calls) : ToString(k) = run.mop
+RunFailOk(T, run) ==
+  LET w == F!Fold(T, [o \in AllOps |-> o]) IN
+  /\ run.outcome = "err" /\ run.out = ""
+  /\ Len(run.calls) >= 1 /\ ToString(Len(run.calls)) = run.mop /\ Len(run.calls) <= Len(w.calls)
+  /\ CallsOk(run.calls, w.calls, Len(run.calls) - 1)
+  /\ LET real == run.calls[Len(run.calls)]  model == w.calls[Len(run.calls)] IN
+     real.op = model.op /\ ArgOk(real.l, model.lb) /\ ArgOk(real.r, model.rb)
 RunOk(T, run) ==
   IF run.mode = "undefined" THEN run.outcome = "err" /\ run.out = ""     \* an operator nobody registered: error, no partial SQL
+  ELSE IF run.mode = "errat" THEN RunFailOk(T, run)
   ELSE
   LET m == MapOf(run)
       w == F!Fold(T, m) IN
@@ -33,7 +44,7 @@ RunOk(T, run) ==
 \* conformance with the MECH reading of Fold.tla: exactly the parenthesisation Base.Render uses today (drift, not a verdict)
 Strip(c) == [op |-> c.op, l |-> c.l, r |-> c.r, ret |-> c.ret]
 RunExact(T, run) ==
-  run.mode = "undefined" \/
+  run.mode \in {"undefined", "errat"} \/
   LET w == F!Fold(T, MapOf(run)) IN
   Len(run.calls) <= Len(w.calls) /\ \A i \in 1..Len(run.calls) : run.calls[i] = Strip(w.calls[i])
 
